@@ -343,7 +343,7 @@ fn run(ctx: &mut Ctx) {
     // default and -U, and the options that are meant to change nothing about acceptance: message logging for
     // the formats under test, counting, the downlink log, relaxed capabilities, a filter that lets them through
     let dl = crate::run::scratch_dir().join("c04-downlink.log").to_string_lossy().into_owned();
-    let option_sets: Vec<Vec<&str>> = vec![vec![], vec!["-U"], vec!["-M", "17", "-M", "11", "-M", "18"], vec!["-U", "-M", "17", "-M", "11", "-M", "18", "-c"], vec!["-D", &dl, "-R"], vec!["-f", "18", "-f", "11", "-f", "17", "-c"]];
+    let option_sets: Vec<Vec<&str>> = vec![vec![], vec!["-U"], vec!["-M", "17", "-M", "11", "-M", "18"], vec!["-U", "-M", "17", "-M", "11", "-M", "18", "-c"], vec!["-D", &dl, "-R"], vec!["-f", "18", "-f", "11", "-f", "17", "-c"], vec!["-l", "/dev/null", "-M", "17", "-M", "11", "-M", "18"], vec!["-F", "hex"], vec!["-F", "raw", "-U"], vec!["-F", "avr"], vec!["-F", "beast"]];
     for opts in option_sets.iter().map(|o| &o[..]) {
         let cfg = Cfg::new(opts);
         for (pname, pre) in &pres {
